@@ -82,6 +82,15 @@ func c23WildIndexes(segs []c23Seg) []int {
 // c23Elvish renders the pattern as an Elvish expression. absPrefix is "" or
 // the absolute working directory with a trailing slash.
 func c23Elvish(p c23Pat, segs []c23Seg, absPrefix string) string {
+	text, _ := c23ElvishDyn(p, segs, absPrefix, -1)
+	return text
+}
+
+// c23ElvishDyn is c23Elvish with the dyn-th set:/range: matcher (counting from
+// 0 over the whole pattern) written as [$c23m]; it returns the modifier that
+// was replaced ("" if there is no such matcher).
+func c23ElvishDyn(p c23Pat, segs []c23Seg, absPrefix string, dyn int) (string, string) {
+	replaced, nthMatcher := "", 0
 	wilds := c23WildIndexes(segs)
 	carrier := func(off int) int { return wilds[(p.At+off)%len(wilds)] }
 	var sb strings.Builder
@@ -117,7 +126,13 @@ func c23Elvish(p c23Pat, segs []c23Seg, absPrefix string) string {
 				case "class":
 					ms = append(ms, "["+string(m.A)+"]")
 				default:
-					ms = append(ms, "["+c23Quote(m.K+":"+string(m.A))+"]")
+					if nthMatcher == dyn {
+						replaced = m.K + ":" + string(m.A)
+						ms = append(ms, "[$c23m]")
+					} else {
+						ms = append(ms, "["+c23Quote(m.K+":"+string(m.A))+"]")
+					}
+					nthMatcher++
 				}
 			}
 			if p.NomatchOK && carrier(0) == i {
@@ -143,7 +158,7 @@ func c23Elvish(p c23Pat, segs []c23Seg, absPrefix string) string {
 		}
 	}
 	flush()
-	return sb.String()
+	return sb.String(), replaced
 }
 
 // c23GlobPattern builds the glob.Pattern directly.
@@ -499,56 +514,96 @@ func c23Check(c c23Case) error {
 			h, _, ok := ex.allowed(p)
 			return ok && typeOK(h, false) && !buts[p]
 		}
-		code := "put " + c23Elvish(p, segs, absPrefix)
-		res := c23RunElvish(code)
-		whatE := fmt.Sprintf("pattern #%d `%s` (results shown relative to %q), %s", pi, code, absPrefix, desc)
-		if res.Err != nil && !elv.IsException(res.Err) {
-			return fmt.Errorf("harness: %s does not compile: %v", whatE, res.Err)
-		}
-		if res.Err != nil {
-			if len(reqF) > 0 {
-				return fmt.Errorf("%s: exception %q although the reference requires %q", whatE, elv.Reason(res.Err), c23Sorted(reqF))
-			}
-			if p.NomatchOK {
-				return fmt.Errorf("%s: exception %q although nomatch-ok is given", whatE, elv.Reason(res.Err))
-			}
-			continue
-		}
-		var gotE []string
-		for _, v := range res.Values {
-			s, ok := v.(string)
-			if !ok {
-				return fmt.Errorf("%s: produced a non-string value %s", whatE, elv.Reprs([]any{v}))
-			}
-			gotE = append(gotE, s)
-		}
-		if len(res.Bytes) > 0 {
-			return fmt.Errorf("%s: wrote bytes %q", whatE, res.Bytes)
-		}
-		gotE = rel(gotE)
-		if err := c23Compare(gotE, reqF, allowedF, dupOK); err != nil {
-			return fmt.Errorf("%s: %v; got %q, reference requires %q", whatE, err, gotE, c23Sorted(reqF))
-		}
-		if len(gotE) == 0 && !p.NomatchOK {
-			// U3: a match emptied only by but: may or may not count as "no match".
-			emptiedByBut := false
-			for b := range buts {
-				if h, _, ok := ex.allowed(b); ok && typeOK(h, false) {
-					emptiedByBut = true
+		// Two evaluations: the pattern as it stands, and - when it has a set: or
+		// range: matcher - the same pattern with that matcher supplied through a
+		// variable, inside a loop whose first iteration uses a decoy matcher
+		// (nearly every character): what the second iteration matches must not
+		// depend on what the same code was given before.
+	runs:
+		for run := 0; run < 2; run++ {
+			code := "put " + c23Elvish(p, segs, absPrefix)
+			var res elv.Result
+			if run == 0 {
+				res = c23RunElvish(code)
+			} else {
+				dynText, real := c23ElvishDyn(p, segs, absPrefix, int(uint(p.At)%4))
+				if real == "" {
+					dynText, real = c23ElvishDyn(p, segs, absPrefix, 0)
+				}
+				if real == "" {
+					break runs
+				}
+				code = "for c23m ['set:abcxyz.01 AB-_世é' " + c23Quote(real) + "] { put \"\\x00sep\"; try { put " + dynText + " } catch e { put \"\\x00exc\" $e } }"
+				res = c23RunElvish(code)
+				if res.Err == nil {
+					last := -1
+					for i, v := range res.Values {
+						if v == "\x00sep" {
+							last = i
+						}
+					}
+					if last < 0 {
+						return fmt.Errorf("harness: `%s` produced no separator: %s", code, elv.Reprs(res.Values))
+					}
+					res.Values = res.Values[last+1:]
+					if len(res.Values) >= 2 && res.Values[len(res.Values)-2] == "\x00exc" {
+						exc, _ := res.Values[len(res.Values)-1].(error)
+						if exc == nil {
+							return fmt.Errorf("harness: `%s` caught something that is not an exception", code)
+						}
+						res.Err, res.Values = exc, nil
+					}
 				}
 			}
-			if !emptiedByBut {
-				return fmt.Errorf("%s: no match and no nomatch-ok, but no exception was raised", whatE)
+			whatE := fmt.Sprintf("pattern #%d `%s` (results shown relative to %q), %s", pi, code, absPrefix, desc)
+			if res.Err != nil && !elv.IsException(res.Err) {
+				return fmt.Errorf("harness: %s does not compile: %v", whatE, res.Err)
 			}
-		}
-		if typeOpen && p.Type == "regular" {
-			for k, h := range req {
-				if _, r := reqF[k]; !r && h.typ == "symlink" && !buts[k] {
-					vs.Excluded(c23KeyType + ": symlink under type:regular tolerated while open")
+			if res.Err != nil {
+				if len(reqF) > 0 {
+					return fmt.Errorf("%s: exception %q although the reference requires %q", whatE, elv.Reason(res.Err), c23Sorted(reqF))
+				}
+				if p.NomatchOK {
+					return fmt.Errorf("%s: exception %q although nomatch-ok is given", whatE, elv.Reason(res.Err))
+				}
+				continue runs
+			}
+			var gotE []string
+			for _, v := range res.Values {
+				s, ok := v.(string)
+				if !ok {
+					return fmt.Errorf("%s: produced a non-string value %s", whatE, elv.Reprs([]any{v}))
+				}
+				gotE = append(gotE, s)
+			}
+			if len(res.Bytes) > 0 {
+				return fmt.Errorf("%s: wrote bytes %q", whatE, res.Bytes)
+			}
+			gotE = rel(gotE)
+			if err := c23Compare(gotE, reqF, allowedF, dupOK); err != nil {
+				return fmt.Errorf("%s: %v; got %q, reference requires %q", whatE, err, gotE, c23Sorted(reqF))
+			}
+			if len(gotE) == 0 && !p.NomatchOK {
+				// U3: a match emptied only by but: may or may not count as "no match".
+				emptiedByBut := false
+				for b := range buts {
+					if h, _, ok := ex.allowed(b); ok && typeOK(h, false) {
+						emptiedByBut = true
+					}
+				}
+				if !emptiedByBut {
+					return fmt.Errorf("%s: no match and no nomatch-ok, but no exception was raised", whatE)
 				}
 			}
+			if typeOpen && p.Type == "regular" {
+				for k, h := range req {
+					if _, r := reqF[k]; !r && h.typ == "symlink" && !buts[k] {
+						vs.Excluded(c23KeyType + ": symlink under type:regular tolerated while open")
+					}
+				}
+			}
+			note(gotE)
 		}
-		note(gotE)
 	}
 	return nil
 }
@@ -1098,7 +1153,7 @@ func c23Class(c c23Case) (string, bool) {
 func init() {
 	vs.Register(vs.Prop[c23Case]{
 		Name:  "C23/expand",
-		Rule:  "random directory trees (depth <= 4, <= 30 entries; names from a pool of similar names a ab abbc abax a.b .a .ab ..a, names with spaces, unicode, glob and shell metacharacters, newlines, bytes that are not UTF-8; files, directories, symbolic links to files/directories/nothing/./../themselves) and 1..3 patterns per tree, 7 of 8 derived from an existing path by replacing components with literals, *, ?, prefix*suffix, per-character ?, adjacent wildcards, restricted stars (set: range: class, incl. *[set]lit*[set] that needs backtracking), prefix**suffix over several components, plus ./ dir/../ ../cwd/ prefixes, //, trailing slash, extensions below the path, near-miss literals, an extra ** (>= 2 **), match-hidden mostly where a name is hidden; expanded relative to the working directory (root or a subdirectory) or with the absolute path in front; through glob.Pattern.Glob, glob.Glob(text) and `put <pattern>` with nomatch-ok, but:, type: attached to varying wildcards. non-trivial = at least one required match and (>= 2 wildcards or a **)",
+		Rule:  "random directory trees (depth <= 4, <= 30 entries; names from a pool of similar names a ab abbc abax a.b .a .ab ..a, names with spaces, unicode, glob and shell metacharacters, newlines, bytes that are not UTF-8; files, directories, symbolic links to files/directories/nothing/./../themselves) and 1..3 patterns per tree, 7 of 8 derived from an existing path by replacing components with literals, *, ?, prefix*suffix, per-character ?, adjacent wildcards, restricted stars (set: range: class, incl. *[set]lit*[set] that needs backtracking), prefix**suffix over several components, plus ./ dir/../ ../cwd/ prefixes, //, trailing slash, extensions below the path, near-miss literals, an extra ** (>= 2 **), match-hidden mostly where a name is hidden; expanded relative to the working directory (root or a subdirectory) or with the absolute path in front; through glob.Pattern.Glob, glob.Glob(text) and `put <pattern>` with nomatch-ok, but:, type: attached to varying wildcards; patterns with a set:/range: matcher are evaluated once more with that matcher supplied through a loop variable whose first value is a decoy (the second iteration must match as if evaluated alone). non-trivial = at least one required match and (>= 2 wildcards or a **)",
 		Gen:   c23Gen,
 		Check: c23Check,
 		Class: c23Class,
@@ -1111,6 +1166,9 @@ func init() {
 					{Segs: []c23Seg{{K: "*", M: []c23M{{K: "set", A: "ab"}}}, {K: "lit", S: "b"}, {K: "*", M: []c23M{{K: "set", A: "c"}}}}},
 					{Segs: []c23Seg{{K: "*"}, {K: "lit", S: "a"}, {K: "*", M: []c23M{{K: "set", A: "x"}}}}},
 				}}},
+			{Key: "C23:modifier-leaks-into-next-evaluation", Case: c23Case{Strict: true,
+				Tree: []c23Ent{{Path: "abbc", Kind: "f"}, {Path: "abax", Kind: "f"}},
+				Pats: []c23Pat{{Segs: []c23Seg{{K: "*"}, {K: "lit", S: "a"}, {K: "*", M: []c23M{{K: "set", A: "x"}}}}}}}},
 			{Key: c23KeyDup, Case: c23Case{Strict: true,
 				Tree: []c23Ent{{Path: "ax", Kind: "d"}, {Path: "ax/bx", Kind: "f"}},
 				Pats: []c23Pat{{Segs: []c23Seg{{K: "**"}, {K: "lit", S: "x"}, {K: "**"}}}}}},
